@@ -2654,11 +2654,17 @@ void Analyser::AnalyserImpl::analyseModel(const ModelPtr &model)
 
                 primaryExternalVariables[internalVariable->mVariable].push_back(variable);
 
-                if (!internalVariable->mIsExternal) {
-                    internalVariable->mIsExternal = true;
+                // Note: several external variables may refer to the same
+                //       equivalence class, in which case the dependencies of
+                //       all of them are kept.
 
-                    for (const auto &dependency : externalVariable->dependencies()) {
-                        internalVariable->mDependencies.push_back(Analyser::AnalyserImpl::internalVariable(dependency)->mVariable);
+                internalVariable->mIsExternal = true;
+
+                for (const auto &dependency : externalVariable->dependencies()) {
+                    auto dependencyVariable = Analyser::AnalyserImpl::internalVariable(dependency)->mVariable;
+
+                    if (std::find(internalVariable->mDependencies.begin(), internalVariable->mDependencies.end(), dependencyVariable) == internalVariable->mDependencies.end()) {
+                        internalVariable->mDependencies.push_back(dependencyVariable);
                     }
                 }
             }
